@@ -81,6 +81,8 @@ def case_ops(cs):
                 c = rng.choice(names)
                 if not N0 > 0:
                     c = rng.choice([nm for nm, k in zip(names, spec["kinds"]) if k not in ("hedge", "cphedge")])
+                if op == "rebalance" and spec["kinds"][names.index(c)] in ("hedge", "cphedge", "sec") and not spec["prices"][di][names.index(c)] > 0:
+                    op = "transact"      # capital cannot be allocated at a zero/negative mark (C10); quantity trades are legal
                 if op == "rebalance":
                     base = (rng.choice([np.nan, rng.uniform(1e4, 1e6)]) if N0 > 0 else rng.uniform(1e4, 1e6))
                     root.rebalance(rng.uniform(-0.5, 1.0), c, base=base)
